@@ -249,7 +249,7 @@ def run_task(task, acc):
             acc.add_violation(case, exc)
         return
     if task["engine"] == "enum":
-        cases = mut.enum_fault_cases(task["spec"], task["n"], task["index"], task["count"], fault_hooks=mut.PRE_HOOKS, pairs=task["pairs"], invalid=True, maxlen=task["maxlen"])
+        cases = mut.enum_fault_cases(task["spec"], task["n"], task["index"], task["count"], fault_hooks=mut.PRE_HOOKS, pairs=task["pairs"], invalid="look" if mut.family_of(task["spec"]) == "NM" else True, maxlen=task["maxlen"])
         acc.run_enum(check_case, _no_bad_for_lm(cases, mut.family_of(task["spec"])))
     else:
         from hypothesis import strategies as st
@@ -257,7 +257,7 @@ def run_task(task, acc):
         @st.composite
         def strat(draw):
             spec = draw(st.sampled_from(CLASS_SPECS))
-            case = draw(mut.history_strategy(max_nodes=7, max_steps=25, faults="pre", invalid=True, class_specs=[spec], hooks=mut.PRE_HOOKS))
+            case = draw(mut.history_strategy(max_nodes=7, max_steps=25, faults="pre", invalid="look" if mut.family_of(spec) == "NM" else True, class_specs=[spec], hooks=mut.PRE_HOOKS))
             if mut.family_of(spec) == "LM":
                 # non-node children are unspecified for LightNodeMixin classes; non-node parents and non-iterables stay
                 case["steps"] = [s for s in case["steps"] if not (s["op"][0] == "children" and not isinstance(s["op"][2], dict) and not mut.op_is_plain(s["op"]))] or [{"op": ["del", 0], "plan": {}}]
